@@ -1,3 +1,8 @@
 import I2P.Bytes
 import I2P.Data
 import I2P.Mapping
+import I2P.Tables
+import I2P.Kac
+import I2P.Structs
+import I2P.Time
+import I2P.Base
